@@ -839,6 +839,35 @@ fn check_attack(c: &AttackCase) -> Result<Info, Fail> {
                 }
             }
         }
+        // (3) parent shrink: lower the declared length of a container so that its *last child* is cut in the middle.
+        //     The child then runs past its parent and must be rejected, although every byte is still inside the datagram.
+        let containers: Vec<_> = hdrs.iter().filter(|h| hdrs.iter().any(|ch| ch.3 == h.3 + 1 && ch.1 >= h.1 && ch.2 == h.2 && ch.2 > ch.1)).collect();
+        if !containers.is_empty() {
+            let h = containers[((c.pick as usize ^ 0x5a5a) * containers.len()) >> 16];
+            // last child: ends exactly where the container ends
+            let last = hdrs.iter().filter(|ch| ch.3 == h.3 + 1 && ch.1 >= h.1 && ch.2 == h.2).last().unwrap();
+            // start of the last child's TLV: its length octet offset minus one (single-octet tags only)
+            let child_start = last.0 - 1;
+            let child_total = h.2 - child_start;
+            if child_total >= 2 {
+                let cut = 1 + (c.delta as usize % (child_total - 1)); // 1 ..= child_total-1 octets removed from the container
+                let new_len = (h.2 - h.1) - cut;
+                let mut m4 = msg.clone();
+                let lo = h.0;
+                if m4[lo] < 0x80 {
+                    m4[lo] = new_len as u8;
+                } else {
+                    let k = (m4[lo] & 0x7f) as usize;
+                    for i in 0..k {
+                        m4[lo + 1 + i] = ((new_len >> (8 * (k - 1 - i))) & 0xff) as u8;
+                    }
+                }
+                attacked = true;
+                if let Ok(v) = decode_message(c.msg.ver, &m4) {
+                    return fail("child-overruns-shrunk-parent", format!("v{} message whose container length at offset {} was lowered by {} (its last child now runs past it) still decodes: {} -> {}", c.msg.ver, lo, cut, hex(&m4), &v[..v.len().min(60)]));
+                }
+            }
+        }
         Ok(Info { nontrivial: !c.suffix.is_empty() || attacked, key: hash_of(&(msg, c.suffix.clone(), c.pick, c.delta)), classes: vec![if attacked { "attack:nested_length" } else { "attack:none" }, if c.suffix.is_empty() { "attack:no_suffix" } else { "attack:trailing" }] })
     })
 }
